@@ -23,6 +23,32 @@ import re
 
 CONSUMER = re.compile(r'^\w+::<(.+) as core::iter::Iterator>::(for_each|try_for_each|all|any|fold|try_fold)::<')
 ADAPTOR = re.compile(r'^\w+::<(.+) as core::iter::Iterator>::(map|filter|filter_map)::<')
+_AD_TY = r'core::iter::(?:adapters::\w+::)?(?:Map|Filter|FilterMap|Zip|Chain)<.+>'
+STRUCT_AD = re.compile(r'^\w+::<(.+) as core::iter::Iterator>::(map|filter|filter_map|zip|chain)::<')
+ANY_INTO_ITER = re.compile(r'^\w+::<(.+) as core::iter::IntoIterator>::into_iter$')
+ITER_TY = re.compile(r'^(core::iter::|soroban_sdk::iter::|soroban_sdk::vec::\w*Iter|core::slice::Iter|core::option::(IntoIter|Iter)<|core::array::IntoIter<|core::ops::Range<)')
+
+
+def split_tuple(ty):
+    """component types of a tuple type string `(A, B, ..)` (None when it is not one)"""
+    if not (ty.startswith('(') and ty.endswith(')')):
+        return None
+    out, depth, cur = [], 0, ''
+    for ch in ty[1:-1]:
+        if ch in '<([':
+            depth += 1
+        elif ch in '>)]':
+            depth -= 1
+        if ch == ',' and depth == 0:
+            out.append(cur.strip())
+            cur = ''
+        else:
+            cur += ch
+    if cur.strip():
+        out.append(cur.strip())
+    return out
+NEXT_ADAPTOR = re.compile(r'^\w+::<(' + _AD_TY + r') as core::iter::Iterator>::next$')
+INTO_ITER_ID = re.compile(r'^\w+::<(' + _AD_TY + r') as core::iter::IntoIterator>::into_iter$')
 
 
 def op_local(o):
@@ -65,6 +91,21 @@ def _closure_root(body, l):
             continue
         break
     return l
+
+
+def _ref_root(body, l):
+    """the local borrowed by the reference held in l (followed through reborrows `&mut *r`)"""
+    for _ in range(4):
+        rv = _single_assign(body, l)
+        if rv is None or rv['r'] != 'ref':
+            return None
+        p = rv['pl'].get('p') or []
+        if not p:
+            return rv['pl']['l']
+        if p != ['*']:
+            return None
+        l = rv['pl']['l']
+    return None
 
 
 class Bail(Exception):
@@ -335,6 +376,248 @@ class Rewriter:
         return B0, L0, cbody
 
     # ------------------------------------------------------------------------------------------------------------------
+    def _uniq(self, base):
+        self._n = getattr(self, '_n', 0) + 1
+        return '%s_%d' % (base, self._n)
+
+    def source_def(self, it, neutralise):
+        """the leaf call that built the iterator held in local `it`, followed back through moves of the variable and the identity
+        `into_iter()` of iterator types: ((call block, term) or None, the local that holds the iterator value)"""
+        body = self.body
+        cur = it
+        for _ in range(8):
+            d = _defs_of(body, cur)
+            if len(d) != 1:
+                return None, cur
+            if d[0][0] == 'assign':
+                rv = d[0][1]['rv']
+                if rv['r'] == 'use' and rv['o']['k'] == 'move' and op_local(rv['o']) is not None:
+                    cur = op_local(rv['o'])
+                    continue
+                return None, cur
+            if d[0][0] != 'call':
+                return None, cur
+            cb = d[0][1]
+            ct = body['blocks'][cb]['term']
+            if not ct.get('leaf') or ct['to'] < 0:
+                return None, cur
+            m = ANY_INTO_ITER.match(ct['callee'])
+            if m and len(ct['args']) == 1 and ITER_TY.match(m.group(1)):
+                inner = op_local(ct['args'][0])
+                if inner is None:
+                    return None, cur
+                neutralise.append(cb)
+                cur = inner
+                continue
+            return (cb, ct), cur
+        return None, cur
+
+    def gen_pull(self, it, elem_ty, on_some, on_none, at, neutralise, depth=0):
+        """blocks that pull ONE element from the iterator held in local `it`, following the structure of the adaptors it was built
+        from in this body: map / filter / filter_map apply their function here, `zip` pulls from both sides, `chain` from the first
+        side until it is exhausted (a flag set at that moment, cleared where the chain was built) and then from the second, `once`
+        yields its value while its flag is clear; any other iterator value is advanced by its own `next()`.  Control continues at
+        on_some with the element in the returned local, or at on_none.  Returns (start label, element local, structured?)."""
+        body = self.body
+        blocks = body['blocks']
+        if depth > 8:
+            raise Bail('iterator structure too deep')
+        A = lambda pl, rv: {'s': 'assign', 'pl': pl, 'rv': rv, 'at': at}
+        use = lambda o: {'r': 'use', 'o': o}
+        mv = lambda l, p=None: {'k': 'move', 'pl': ({'l': l, 'p': p} if p else {'l': l})}
+        cbool = lambda v: {'k': 'const', 'ty': 'bool', 'v': 'true' if v else 'false'}
+        found, cur = self.source_def(it, neutralise)
+        start = self._uniq('P')
+        if found:
+            cb, ct = found
+            cal = ct['callee']
+            tys = ct.get('argtys', [])
+            m = STRUCT_AD.match(cal)
+            if m and len(ct['args']) == 2 and m.group(2) in ('map', 'filter', 'filter_map'):
+                kind = m.group(2)
+                inner = op_local(ct['args'][0])
+                if inner is None:
+                    raise Bail('adaptor operand is not a local')
+                sid = self._uniq('g')
+                sd = self.prepare_stage(sid, kind, self.stage_of(ct), at)
+                neutralise.append(cb)
+                pty = sd['param_ty']
+                in_ty = pty[1:] if kind == 'filter' and pty.startswith('&') else pty
+                got = self._uniq('GOT')
+                istart, x, _ = self.gen_pull(inner, in_ty, got, on_none, at, neutralise, depth + 1)
+                ret, ret_ty = sd['ret'], sd['ret_ty']
+                if kind == 'map':
+                    self.add_block(got, [A({'l': sd['param']}, use(mv(x)))], {'t': 'goto', 'to': sd['entry']})
+                    y = self.newlocal(ret_ty)
+                    self.add_block('R%s' % sid, [A({'l': y}, use(mv(ret)))], {'t': 'goto', 'to': on_some})
+                    return istart, y, True
+                if kind == 'filter':
+                    self.add_block(got, [A({'l': sd['param']}, {'r': 'ref', 'mut': False, 'pl': {'l': x}})], {'t': 'goto', 'to': sd['entry']})
+                    self.add_block('R%s' % sid, [], {'t': 'switch', 'd': mv(ret), 'dty': 'bool', 'arms': [[0, istart]], 'otherwise': on_some, 'at': at})
+                    return istart, x, True
+                if not ret_ty.startswith('core::option::Option<'):
+                    raise Bail('filter_map closure type')
+                self.add_block(got, [A({'l': sd['param']}, use(mv(x)))], {'t': 'goto', 'to': sd['entry']})
+                d_i = self.newlocal('isize')
+                yes = self._uniq('Y')
+                unr = self._uniq('UNR')
+                self.add_block('R%s' % sid, [A({'l': d_i}, {'r': 'discr', 'pl': {'l': ret}, 'ty': ret_ty})],
+                               {'t': 'switch', 'd': mv(d_i), 'dty': 'isize', 'arms': [[0, istart], [1, yes]], 'otherwise': unr, 'at': at})
+                y = self.newlocal(ret_ty[len('core::option::Option<'):-1])
+                self.add_block(yes, [A({'l': y}, use(mv(ret, [{'v': 1, 'n': 'Some'}, {'f': 0, 'n': '0'}])))], {'t': 'goto', 'to': on_some})
+                self.add_block(unr, [], {'t': 'unreachable'})
+                return istart, y, True
+            if m and len(ct['args']) == 2 and m.group(2) in ('zip', 'chain'):
+                a, b = op_local(ct['args'][0]), op_local(ct['args'][1])
+                if a is None or b is None or len(tys) < 2 or not ITER_TY.match(tys[1]):
+                    raise Bail('zip/chain operand')
+                if m.group(2) == 'zip':
+                    parts = split_tuple(elem_ty)
+                    if not parts or len(parts) != 2:
+                        raise Bail('zip element type')
+                    got_a, got_b = self._uniq('GA'), self._uniq('GB')
+                    sa, xa, _ = self.gen_pull(a, parts[0], got_a, on_none, at, neutralise, depth + 1)
+                    sb, xb, _ = self.gen_pull(b, parts[1], got_b, on_none, at, neutralise, depth + 1)
+                    self.add_block(got_a, [], {'t': 'goto', 'to': sb})
+                    pair = self.newlocal(elem_ty)
+                    self.add_block(got_b, [A({'l': pair}, {'r': 'agg', 'kind': 'tuple', 'ops': [mv(xa), mv(xb)]})], {'t': 'goto', 'to': on_some})
+                    neutralise.append(cb)
+                    return sa, pair, True
+                flag = self.newlocal('bool')
+                blocks[cb]['st'] = blocks[cb]['st'] + [A({'l': flag}, use(cbool(False)))]
+                x = self.newlocal(elem_ty)
+                got_a, got_b, none_a = self._uniq('GA'), self._uniq('GB'), self._uniq('NA')
+                sa, xa, _ = self.gen_pull(a, elem_ty, got_a, none_a, at, neutralise, depth + 1)
+                sb, xb, _ = self.gen_pull(b, elem_ty, got_b, on_none, at, neutralise, depth + 1)
+                self.add_block(start, [], {'t': 'switch', 'd': {'k': 'copy', 'pl': {'l': flag}}, 'dty': 'bool', 'arms': [[0, sa]], 'otherwise': sb, 'at': at})
+                self.add_block(got_a, [A({'l': x}, use(mv(xa)))], {'t': 'goto', 'to': on_some})
+                self.add_block(none_a, [A({'l': flag}, use(cbool(True)))], {'t': 'goto', 'to': sb})
+                self.add_block(got_b, [A({'l': x}, use(mv(xb)))], {'t': 'goto', 'to': on_some})
+                neutralise.append(cb)
+                return start, x, True
+            if re.search(r'core::iter::(sources::once::)?once::<', cal) and len(ct['args']) == 1:
+                flag = self.newlocal('bool')
+                blocks[cb]['st'] = blocks[cb]['st'] + [A({'l': flag}, use(cbool(False)))]
+                x = self.newlocal(elem_ty)
+                some = self._uniq('ONCE')
+                v = ct['args'][0]
+                vl = op_local(v)
+                if vl is not None:
+                    for b2 in blocks:
+                        b2['st'] = [s_ for s_ in b2['st'] if not (s_['s'] == 'dead' and s_.get('l') == vl)]
+                self.add_block(start, [], {'t': 'switch', 'd': {'k': 'copy', 'pl': {'l': flag}}, 'dty': 'bool', 'arms': [[0, some]], 'otherwise': on_none, 'at': at})
+                self.add_block(some, [A({'l': flag}, use(cbool(True))), A({'l': x}, use(v))], {'t': 'goto', 'to': on_some})
+                neutralise.append(cb)
+                return start, x, True
+        # any other iterator value: its own next()
+        iter_ty = body['locals'][cur]
+        if iter_ty.startswith('&'):
+            raise Bail('iterator held by reference')
+        nx = _next_callee(self.insts, iter_ty)
+        opt_ty = 'core::option::Option<%s>' % elem_ty
+        l_ref = self.newlocal('&mut ' + iter_ty)
+        l_opt = self.newlocal(opt_ty)
+        l_d = self.newlocal('isize')
+        x = self.newlocal(elem_ty)
+        sw, el, unr = self._uniq('S'), self._uniq('E'), self._uniq('UNR')
+        self.add_block(start, [A({'l': l_ref}, {'r': 'ref', 'mut': True, 'pl': {'l': cur}})],
+                       {'t': 'call', 'callee': nx['callee'], 'cdef': nx['cdef'], 'leaf': True, 'crate': nx['crate'], 'closure_call': False,
+                        'self_adt': nx['self_adt'], 'closures': [], 'args': [mv(l_ref)], 'argtys': [body['locals'][l_ref]],
+                        'dest': {'l': l_opt}, 'to': sw, 'at': at})
+        self.add_block(sw, [A({'l': l_d}, {'r': 'discr', 'pl': {'l': l_opt}, 'ty': opt_ty})],
+                       {'t': 'switch', 'd': mv(l_d), 'dty': 'isize', 'arms': [[0, on_none], [1, el]], 'otherwise': unr, 'at': at})
+        self.add_block(el, [A({'l': x}, use(mv(l_opt, [{'v': 1, 'n': 'Some'}, {'f': 0, 'n': '0'}])))], {'t': 'goto', 'to': on_some})
+        self.add_block(unr, [], {'t': 'unreachable'})
+        return start, x, False
+
+    def stage_of(self, ct):
+        """the function an adaptor applies: ('fn', instance key) for a function item, ('closure', key, local) for a closure"""
+        f = ct['args'][-1]
+        if f['k'] == 'const' and f.get('fnkey') in self.insts:
+            return ('fn', f['fnkey'])
+        ck, cl = self.closure_of(ct)
+        return ('closure', ck, cl)
+
+    def prepare_stage(self, i, kind, spec, at):
+        """blocks computing stage i; its result is in 'ret' when control reaches the symbolic block R<i>"""
+        if spec[0] == 'closure':
+            B0, L0, sbody = self.splice(spec[1], spec[2], 'R%s' % i, at)
+            return dict(kind=kind, entry=B0, param=L0 + 2, ret=L0, ret_ty=sbody['locals'][0], param_ty=sbody['locals'][2])
+        fb = self.insts[spec[1]]
+        if fb.get('argc') != 1:
+            raise Bail('adaptor function arity')
+        p = self.newlocal(fb['locals'][1])
+        r = self.newlocal(fb['locals'][0])
+        entry = self.add_block(None, [], {'t': 'call', 'callee': spec[1], 'cdef': fb.get('def', ''), 'leaf': False, 'crate': fb.get('crate', ''),
+                                          'closure_call': False, 'self_adt': '', 'closures': [], 'args': [{'k': 'move', 'pl': {'l': p}}],
+                                          'argtys': [fb['locals'][1]], 'dest': {'l': r}, 'to': 'R%s' % i, 'at': at})
+        return dict(kind=kind, entry=entry, param=p, ret=r, ret_ty=fb['locals'][0], param_ty=fb['locals'][1])
+
+    def emit_stages(self, staged, x, at, last):
+        """PRE<i>/R<i> glue between the stages; a rejected element goes back to H; returns the local holding the final element"""
+        A = lambda pl, rv: {'s': 'assign', 'pl': pl, 'rv': rv, 'at': at}
+        use = lambda o: {'r': 'use', 'o': o}
+        mv = lambda l, p=None: {'k': 'move', 'pl': ({'l': l, 'p': p} if p else {'l': l})}
+        for i, sd in enumerate(staged):
+            nxt = 'PRE%d' % (i + 1) if i + 1 < len(staged) else last
+            sk, ret, ret_ty = sd['kind'], sd['ret'], sd['ret_ty']
+            if sk == 'map':
+                self.add_block('PRE%d' % i, [A({'l': sd['param']}, use(mv(x)))], {'t': 'goto', 'to': sd['entry']})
+                x2 = self.newlocal(ret_ty)
+                self.add_block('R%d' % i, [A({'l': x2}, use(mv(ret)))], {'t': 'goto', 'to': nxt})
+                x = x2
+            elif sk == 'filter':
+                self.add_block('PRE%d' % i, [A({'l': sd['param']}, {'r': 'ref', 'mut': False, 'pl': {'l': x}})], {'t': 'goto', 'to': sd['entry']})
+                self.add_block('R%d' % i, [], {'t': 'switch', 'd': mv(ret), 'dty': 'bool', 'arms': [[0, 'H']], 'otherwise': nxt, 'at': at})
+            else:   # filter_map
+                if not ret_ty.startswith('core::option::Option<'):
+                    raise Bail('filter_map closure type')
+                self.add_block('PRE%d' % i, [A({'l': sd['param']}, use(mv(x)))], {'t': 'goto', 'to': sd['entry']})
+                d_i = self.newlocal('isize')
+                self.add_block('R%d' % i, [A({'l': d_i}, {'r': 'discr', 'pl': {'l': ret}, 'ty': ret_ty})],
+                               {'t': 'switch', 'd': mv(d_i), 'dty': 'isize', 'arms': [[0, 'H'], [1, 'Y%d' % i]], 'otherwise': 'UNR', 'at': at})
+                x2 = self.newlocal(ret_ty[len('core::option::Option<'):-1])
+                self.add_block('Y%d' % i, [A({'l': x2}, use(mv(ret, [{'v': 1, 'n': 'Some'}, {'f': 0, 'n': '0'}])))], {'t': 'goto', 'to': nxt})
+                x = x2
+        return x
+
+    def rewrite_next(self, bi):
+        """`it.next()` where `it` was built in this body from adaptors (the header of a `for` loop over `base.map(f)`, `a.zip(b)`,
+        `once(x).chain(..)`, ...): pull from the underlying iterators and apply the adaptors here (gen_pull), so that the element the
+        loop body sees is a term over the base elements and the adaptor functions' effects are ordinary code of this body"""
+        body = self.body
+        blocks = body['blocks']
+        t = blocks[bi]['term']
+        at = t.get('at')
+        if t['to'] < 0 or len(t['args']) != 1 or t['dest'].get('p'):
+            raise Bail('next shape')
+        a0 = op_local(t['args'][0])
+        root = _ref_root(body, a0) if a0 is not None else None
+        if root is None:
+            raise Bail('iterator reference')
+        # the iterator variable is advanced at this site only (one `&mut` borrow in the whole body)
+        if _uses(body, root) != 1:
+            raise Bail('iterator variable has other uses')
+        dty = body['locals'][t['dest']['l']]
+        if not dty.startswith('core::option::Option<'):
+            raise Bail('next result type')
+        elem_ty = dty[len('core::option::Option<'):-1]
+        neutralise = []
+        start, x, structured = self.gen_pull(root, elem_ty, 'SOME', 'NONE', at, neutralise)
+        if not structured:
+            raise Bail('no adaptor structure found')
+        A = lambda pl, rv: {'s': 'assign', 'pl': pl, 'rv': rv, 'at': at}
+
+        def opt(variant, vidx, ops):
+            return {'r': 'agg', 'kind': 'adt', 'adt': 'core::option::Option', 'variant': variant, 'vidx': vidx,
+                    'fields': ['0'] if ops else [], 'is_enum': True, 'ops': ops}
+        self.add_block('SOME', [A(t['dest'], opt('Some', 1, [{'k': 'move', 'pl': {'l': x}}]))], {'t': 'goto', 'to': t['to']})
+        self.add_block('NONE', [A(t['dest'], opt('None', 0, []))], {'t': 'goto', 'to': t['to']})
+        self.resolve()
+        for cb in neutralise:
+            blocks[cb]['term'] = {'t': 'goto', 'to': blocks[cb]['term']['to']}
+        blocks[bi]['term'] = {'t': 'goto', 'to': self.names[start]}
+
     def closure_of(self, t):
         ck = [k for k in t.get('closures', []) if k in self.insts]
         if len(ck) != 1:
@@ -365,6 +648,22 @@ class Rewriter:
         if cal.endswith(' as core::iter::IntoIterator>::into_iter') and tys and tys[0].startswith('core::option::Option<'):
             neutralise.append(cb)
             return [('opt', ct['args'][0])]
+        if re.search(r'(<\[.*; \d+\] as core::iter::IntoIterator>|impl core::iter::IntoIterator for \[.*; \d+\]>)::into_iter$', cal) and len(ct['args']) == 1:
+            # `[a, b, c].into_iter()`: the array literal's elements, in order
+            al = op_local(ct['args'][0])
+            arv = _single_assign(body, al) if al is not None else None
+            if arv is None or arv['r'] != 'agg' or arv.get('kind') != 'array':
+                return None
+            neutralise.append(cb)
+            return [('val', o) for o in arv['ops']]
+        if ' as core::iter::Iterator>::flatten' in cal and len(ct['args']) == 1 and 'IntoIter<core::option::Option<' in cal:
+            # `.flatten()` over a static list of Options: each element only when it is Some
+            a = op_local(ct['args'][0])
+            inner = self.static_source(a, neutralise, depth + 1) if a is not None else None
+            if inner is None or any(k_ != 'val' or o_['k'] not in ('copy', 'move') for k_, o_ in inner):
+                return None
+            neutralise.append(cb)
+            return [('opt', o_) for _, o_ in inner]
         if ' as core::iter::Iterator>::chain::<' in cal and len(ct['args']) == 2:
             a = op_local(ct['args'][0])
             first = self.static_source(a, neutralise, depth + 1) if a is not None else None
@@ -394,6 +693,10 @@ class Rewriter:
         unit = {'k': 'const', 'ty': '()', 'v': '()'}
         cbool = lambda v: {'k': 'const', 'ty': 'bool', 'v': 'true' if v else 'false'}
         n = len(elems)
+        # the elements were moved into the source value (array, chain, ..) and are read from their original locals here: those locals stay live
+        keep = set(o_['pl']['l'] for _, o_ in elems if o_['k'] in ('copy', 'move'))
+        for b_ in blocks:
+            b_['st'] = [s_ for s_ in b_['st'] if not (s_['s'] == 'dead' and s_['l'] in keep)]
         for k, (ek, o) in enumerate(elems):
             nxt = 'EL%d' % (k + 1) if k + 1 < n else 'NONE'
             cB0, cL0, cbody = self.splice(ckey, cl_local, 'RET%d' % k, at)
@@ -480,40 +783,32 @@ class Rewriter:
             expected = (1 if it_ty.startswith('&mut ') else 0) if not stages else 1
             if _uses(body, it, skip_blocks=(bi,)) != expected:
                 raise Bail('adaptor value has other uses')
-            sck, scl = self.closure_of(ct)
             inner = op_local(ct['args'][0])
             if inner is None:
                 raise Bail('adaptor operand is not a local')
-            stages.insert(0, (am.group(2), sck, scl))
+            stages.insert(0, (am.group(2), self.stage_of(ct)))
             neutralise.append(cb)
             iter_ty = am.group(1)
             it = inner
             it_val_ty = ct['argtys'][0] if ct.get('argtys') else iter_ty
         # ---- a statically known source (`once(a)`, an Option, `A.chain(B)` of those): unroll instead of looping
-        static = self.static_source(it, neutralise) if not stages else None
+        tmp = []
+        static = self.static_source(it, tmp) if not stages else None
         if static is not None:
+            neutralise.extend(tmp)
             if kind in ('fold', 'try_fold'):
                 raise Bail('fold over a static source')
             self.rewrite_static(bi, kind, static, ckey, cl_local, nargs, neutralise)
             return
         # ---- loop skeleton
-        l_ref = self.newlocal('&mut ' + it_val_ty)
-        nx = _next_callee(insts, iter_ty)
         # consumer first (its parameter types give the element type when there is no stage)
         cB0, cL0, cbody = self.splice(ckey, cl_local, 'RET', at)
-        staged = []
-        for i, (sk, sck, scl) in enumerate(stages):
-            sB0, sL0, sbody = self.splice(sck, scl, 'R%d' % i, at)
-            staged.append((sk, sB0, sL0, sbody))
+        staged = [self.prepare_stage(i, sk, spec, at) for i, (sk, spec) in enumerate(stages)]
         if staged:
-            first_param_ty = staged[0][3]['locals'][2]
-            elem0_ty = first_param_ty[1:] if staged[0][0] == 'filter' and first_param_ty.startswith('&') else first_param_ty
+            first_param_ty = staged[0]['param_ty']
+            elem0_ty = first_param_ty[1:] if staged[0]['kind'] == 'filter' and first_param_ty.startswith('&') else first_param_ty
         else:
             elem0_ty = cbody['locals'][nargs]
-        opt_ty = 'core::option::Option<%s>' % elem0_ty
-        l_opt = self.newlocal(opt_ty)
-        l_d = self.newlocal('isize')
-        x = self.newlocal(elem0_ty)
         acc = None
         if kind in ('fold', 'try_fold'):
             acc = self.newlocal(cbody['locals'][2])
@@ -523,36 +818,9 @@ class Rewriter:
         A = lambda pl, rv: {'s': 'assign', 'pl': pl, 'rv': rv, 'at': at}
         use = lambda o: {'r': 'use', 'o': o}
         mv = lambda l, p=None: {'k': 'move', 'pl': ({'l': l, 'p': p} if p else {'l': l})}
-        self.add_block('H', [A({'l': l_ref}, {'r': 'ref', 'mut': True, 'pl': {'l': it}})],
-                       {'t': 'call', 'callee': nx['callee'], 'cdef': nx['cdef'], 'leaf': True, 'crate': nx['crate'], 'closure_call': False,
-                        'self_adt': nx['self_adt'], 'closures': [], 'args': [mv(l_ref)], 'argtys': [body['locals'][l_ref]],
-                        'dest': {'l': l_opt}, 'to': 'S', 'at': at})
-        self.add_block('S', [A({'l': l_d}, {'r': 'discr', 'pl': {'l': l_opt}, 'ty': opt_ty})],
-                       {'t': 'switch', 'd': mv(l_d), 'dty': 'isize', 'arms': [[0, 'NONE'], [1, 'E0']], 'otherwise': 'UNR', 'at': at})
-        nxt = 'PRE0' if staged else 'CONS'
-        self.add_block('E0', [A({'l': x}, use(mv(l_opt, [{'v': 1, 'n': 'Some'}, {'f': 0, 'n': '0'}])))], {'t': 'goto', 'to': nxt})
-        for i, (sk, sB0, sL0, sbody) in enumerate(staged):
-            nxt = 'PRE%d' % (i + 1) if i + 1 < len(staged) else 'CONS'
-            ret = sL0 + 0
-            ret_ty = sbody['locals'][0]
-            if sk == 'map':
-                self.add_block('PRE%d' % i, [A({'l': sL0 + 2}, use(mv(x)))], {'t': 'goto', 'to': sB0})
-                x2 = self.newlocal(ret_ty)
-                self.add_block('R%d' % i, [A({'l': x2}, use(mv(ret)))], {'t': 'goto', 'to': nxt})
-                x = x2
-            elif sk == 'filter':
-                self.add_block('PRE%d' % i, [A({'l': sL0 + 2}, {'r': 'ref', 'mut': False, 'pl': {'l': x}})], {'t': 'goto', 'to': sB0})
-                self.add_block('R%d' % i, [], {'t': 'switch', 'd': mv(ret), 'dty': 'bool', 'arms': [[0, 'H']], 'otherwise': nxt, 'at': at})
-            else:   # filter_map
-                if not ret_ty.startswith('core::option::Option<'):
-                    raise Bail('filter_map closure type')
-                self.add_block('PRE%d' % i, [A({'l': sL0 + 2}, use(mv(x)))], {'t': 'goto', 'to': sB0})
-                d_i = self.newlocal('isize')
-                self.add_block('R%d' % i, [A({'l': d_i}, {'r': 'discr', 'pl': {'l': ret}, 'ty': ret_ty})],
-                               {'t': 'switch', 'd': mv(d_i), 'dty': 'isize', 'arms': [[0, 'H'], [1, 'Y%d' % i]], 'otherwise': 'UNR', 'at': at})
-                x2 = self.newlocal(ret_ty[len('core::option::Option<'):-1])
-                self.add_block('Y%d' % i, [A({'l': x2}, use(mv(ret, [{'v': 1, 'n': 'Some'}, {'f': 0, 'n': '0'}])))], {'t': 'goto', 'to': nxt})
-                x = x2
+        start, x, _ = self.gen_pull(it, elem0_ty, 'PRE0' if staged else 'CONS', 'NONE', at, neutralise)
+        self.add_block('H', [], {'t': 'goto', 'to': start})
+        x = self.emit_stages(staged, x, at, 'CONS')
         cons_st = []
         if acc is not None:
             cons_st.append(A({'l': cL0 + 2}, use(mv(acc))))
@@ -560,11 +828,20 @@ class Rewriter:
         self.add_block('CONS', cons_st, {'t': 'goto', 'to': cB0})
         unit = {'k': 'const', 'ty': '()', 'v': '()'}
 
-        def res(variant, vidx, o):
-            return {'r': 'agg', 'kind': 'adt', 'adt': 'core::result::Result', 'variant': variant, 'vidx': vidx, 'fields': ['0'], 'is_enum': True, 'ops': [o]}
         ret_local = cL0 + 0
         ret_ty = cbody['locals'][0]
-        is_result = ret_ty.startswith('core::result::Result<') or ret_ty.startswith('std::result::Result<')
+        # the Try type of try_for_each / try_fold: (adt, continue variant, its index, break index)
+        if ret_ty.startswith('core::result::Result<') or ret_ty.startswith('std::result::Result<'):
+            try_ = ('core::result::Result', 'Ok', 0, 1)
+        elif ret_ty.startswith('core::ops::ControlFlow<') or ret_ty.startswith('core::ops::control_flow::ControlFlow<'):
+            try_ = ('core::ops::ControlFlow', 'Continue', 0, 1)
+        elif ret_ty.startswith('core::option::Option<'):
+            try_ = ('core::option::Option', 'Some', 1, 0)
+        else:
+            try_ = None
+
+        def cont(o):
+            return {'r': 'agg', 'kind': 'adt', 'adt': try_[0], 'variant': try_[1], 'vidx': try_[2], 'fields': ['0'], 'is_enum': True, 'ops': [o]}
         cbool = lambda v: {'k': 'const', 'ty': 'bool', 'v': 'true' if v else 'false'}
         if kind == 'for_each':
             self.add_block('NONE', [A(dest, use(unit))], {'t': 'goto', 'to': T})
@@ -577,24 +854,24 @@ class Rewriter:
                 self.add_block('RET', [], {'t': 'switch', 'd': mv(ret_local), 'dty': 'bool', 'arms': [[0, 'H']], 'otherwise': 'BRK', 'at': at})
             self.add_block('BRK', [A(dest, use(cbool(kind != 'all')))], {'t': 'goto', 'to': T})
         elif kind == 'try_for_each':
-            if not is_result:
-                raise Bail('try_for_each on a non-Result type')
+            if try_ is None:
+                raise Bail('try_for_each on an unknown Try type')
             l_rd = self.newlocal('isize')
-            self.add_block('NONE', [A(dest, res('Ok', 0, unit))], {'t': 'goto', 'to': T})
+            self.add_block('NONE', [A(dest, cont(unit))], {'t': 'goto', 'to': T})
             self.add_block('RET', [A({'l': l_rd}, {'r': 'discr', 'pl': {'l': ret_local}, 'ty': ret_ty})],
-                           {'t': 'switch', 'd': mv(l_rd), 'dty': 'isize', 'arms': [[0, 'H'], [1, 'BRK']], 'otherwise': 'UNR', 'at': at})
+                           {'t': 'switch', 'd': mv(l_rd), 'dty': 'isize', 'arms': [[try_[2], 'H'], [try_[3], 'BRK']], 'otherwise': 'UNR', 'at': at})
             self.add_block('BRK', [A(dest, use(mv(ret_local)))], {'t': 'goto', 'to': T})
         elif kind == 'fold':
             self.add_block('NONE', [A(dest, use(mv(acc)))], {'t': 'goto', 'to': T})
             self.add_block('RET', [A({'l': acc}, use(mv(ret_local)))], {'t': 'goto', 'to': 'H'})
         else:   # try_fold
-            if not is_result:
-                raise Bail('try_fold on a non-Result type')
+            if try_ is None:
+                raise Bail('try_fold on an unknown Try type')
             l_rd = self.newlocal('isize')
-            self.add_block('NONE', [A(dest, res('Ok', 0, mv(acc)))], {'t': 'goto', 'to': T})
+            self.add_block('NONE', [A(dest, cont(mv(acc)))], {'t': 'goto', 'to': T})
             self.add_block('RET', [A({'l': l_rd}, {'r': 'discr', 'pl': {'l': ret_local}, 'ty': ret_ty})],
-                           {'t': 'switch', 'd': mv(l_rd), 'dty': 'isize', 'arms': [[0, 'CONT'], [1, 'BRK']], 'otherwise': 'UNR', 'at': at})
-            self.add_block('CONT', [A({'l': acc}, use(mv(ret_local, [{'v': 0, 'n': 'Ok'}, {'f': 0, 'n': '0'}])))], {'t': 'goto', 'to': 'H'})
+                           {'t': 'switch', 'd': mv(l_rd), 'dty': 'isize', 'arms': [[try_[2], 'CONT'], [try_[3], 'BRK']], 'otherwise': 'UNR', 'at': at})
+            self.add_block('CONT', [A({'l': acc}, use(mv(ret_local, [{'v': try_[2], 'n': try_[1]}, {'f': 0, 'n': '0'}])))], {'t': 'goto', 'to': 'H'})
             self.add_block('BRK', [A(dest, use(mv(ret_local)))], {'t': 'goto', 'to': T})
         self.add_block('UNR', [], {'t': 'unreachable'})
         self.resolve()
@@ -670,13 +947,16 @@ def inline_body(insts, body, done):
             if b['cleanup'] or t['t'] != 'call' or t.get('_noinline'):
                 continue
             direct = _direct_call_target(insts, body, t) is not None
-            if not direct and not (t.get('leaf') and CONSUMER.match(t['callee'])):
+            nxt = bool(t.get('leaf') and NEXT_ADAPTOR.match(t['callee']))
+            if not direct and not nxt and not (t.get('leaf') and CONSUMER.match(t['callee'])):
                 continue
             snap = (len(body['locals']), len(body['blocks']), len(body['promoted']), copy.deepcopy(body['blocks']), dict(body['names']),
                     list(body.get('inlined_iter_closures', [])), copy.deepcopy(body.get('_closure_caps', {})))
             try:
                 if direct:
                     rewrite_direct_call(insts, body, bi, done)
+                elif nxt:
+                    Rewriter(insts, body, done).rewrite_next(bi)
                 else:
                     Rewriter(insts, body, done).rewrite(bi)
                 changed = True
